@@ -19,7 +19,8 @@ import (
 // Answers are three-valued: u = answered, d = not received, l = accepted by the server but the client sees a
 // failure.  `!k~` = crash in the middle of the file write of the k-th step.  `@m:deq|retry:<ans>` = a step of
 // the background processor executed while the API call is parked in front of marker m (the processor
-// goroutine runs concurrently with every API call in production).
+// goroutine runs concurrently with every API call in production).  `@17:stop:<sid>:<cause>:<ans>` = a complete
+// StopSession call executed while an interim update (the interim goroutine) is parked in front of its send.
 
 type sink struct {
 	r    *rand.Rand
@@ -252,6 +253,31 @@ func exhaustiveInject(s *sink) {
 	}
 }
 
+// the interim goroutine runs concurrently with the API: StopSession (of the same or of another session) runs to
+// completion while an interim update is parked in front of its send, under every answer of both requests
+func exhaustiveInterimStop(s *sink) {
+	ans := []string{"u", "d", "l"}
+	for _, a0 := range []string{"u", "d"} {
+		for _, pre := range [][]string{nil, {"ctr s1 5 100000007"}, {"interim s1 d"}} {
+			for _, ai := range ans {
+				for _, as := range ans {
+					main := append([]string{"new 3 8", "start s1 i1 " + a0}, pre...)
+					main = append(main, fmt.Sprintf("interim s1 %s @17:stop:s1:1:%s", ai, as))
+					endings(main, 1, func(p []string, dead bool) { withTails(s, p, 1, dead, true) })
+					// ... followed by more traffic on the same instance before it goes down
+					for _, next := range []string{"retry u", "deq u", "interim s1 u", "stop s1 2 u"} {
+						endings(append(append([]string(nil), main...), next), 1, func(p []string, dead bool) { withTails(s, p, 1, dead, false) })
+					}
+					// another session is stopped meanwhile
+					main2 := []string{"new 3 8", "start s1 i1 " + a0, "start s2 i2 u",
+						fmt.Sprintf("interim s1 %s @17:stop:s2:2:%s", ai, as), "stop s1 1 u"}
+					endings(main2, 2, func(p []string, dead bool) { withTails(s, p, 2, dead, false) })
+				}
+			}
+		}
+	}
+}
+
 // interleavings of per-session chains
 func merges(chains [][]string, emit func([]string)) {
 	idx := make([]int, len(chains))
@@ -436,6 +462,13 @@ func randomSeq(r *rand.Rand) []string {
 			if r.Intn(5) == 0 { // the processor runs while the call is parked at one of its markers
 				ms := map[string][]int{"start": {1, 2}, "interim": {17}, "stop": {3, 4, 5, 6}, "shutdown": {9, 19}}[strings.Fields(op)[0]]
 				op += fmt.Sprintf(" @%d:%s:%s", ms[r.Intn(len(ms))], []string{"deq", "retry"}[r.Intn(2)], ans(1+r.Intn(2)))
+			} else if strings.HasPrefix(op, "interim") && r.Intn(3) == 0 { // StopSession completes while the interim update is in flight
+				t := s
+				if r.Intn(4) == 0 {
+					t = 1 + r.Intn(nsess)
+				}
+				op += fmt.Sprintf(" @17:stop:s%d:%d:%s", t, r.Intn(19), ans(1))
+				delete(active, t)
 			}
 		}
 		if !strings.HasPrefix(op, "ctr") && op != "crash" && op != "final" && r.Intn(6) == 0 {
@@ -463,6 +496,7 @@ func generate(r *rand.Rand, tier string, emit func([]string)) {
 		exhaustive1(s, "new 1 1", 2)
 		exhaustiveLost(s)
 		exhaustiveInject(s)
+		exhaustiveInterimStop(s)
 		exhaustive2(s)
 		exhaustive3(s)
 		counters(s, r, 4000)
@@ -479,6 +513,8 @@ func generate(r *rand.Rand, tier string, emit func([]string)) {
 	exhaustiveLost(s)
 	s.keep = 0.01
 	exhaustiveInject(s)
+	s.keep = 0.05
+	exhaustiveInterimStop(s)
 	s.keep = 0.005
 	exhaustive2(s)
 	s.keep = 0.02
@@ -495,6 +531,8 @@ var witnesses = [][]string{
 	{"new 3 8", "start s1 i1 u", "stop s1 1 d @5:deq:u", "final", "shutdown -", "restart u", "final"},
 	// … and while the shutdown drain is still running
 	{"new 3 8", "start s1 i1 u", "start s2 i2 u", "shutdown du @9:deq:u", "restart uu", "deq u", "retry -", "final"},
+	// the interim goroutine: StopSession completes while an interim update is in flight, then graceful restart
+	{"new 3 8", "start s1 i1 u", "ctr s1 5 6", "interim s1 u @17:stop:s1:1:u", "final", "shutdown -", "restart u", "final"},
 	// C08-b: crash in the middle of the rewrite of an existing session file
 	{"new 3 8", "start s1 i1 u", "stop s1 1 u !1~", "restart u", "final"},
 	// C08-c: the server accepts the Stop, the reply is lost, the client sends it again
